@@ -240,8 +240,10 @@ def anywhere_runs(res, base, case, r, npoints):
         wd = os.path.join(base, f'any{n}')
         cfg = {'monitors': ['write'],
                'failpoint': {'anywhere': n, 'action': 'interrupt'}}
+        # (the calibration run went through all statements; a run that stops
+        # at one of them needs no longer, whatever the load of the machine)
         run = realrun.run_ddsmt(wd, text, rules, opts=opts, launcher=cfg,
-                                timeout=45)
+                                timeout=max(45, 3 * run0.wall + 30))
         shutil.rmtree(wd, ignore_errors=True)
         res.count('evaluations')
         fired = [e for e in run.events if e['ev'] == 'failpoint']
